@@ -45,9 +45,13 @@ class Table:
         """A real ProtocolResponse carrying `payload` as the answer to the real read command for this block."""
         if self.mode == 'modbus':
             n = len(payload) // 2
-            if transport == 'tcp':
+            if transport.startswith('tcp'):
                 cmd = gp.ModbusTcpReadCommand(0xF7, self.start, n)
                 raw = wire.tcp_read_resp(b'\x00\x01', 0xF7, payload)
+                if transport != 'tcp':
+                    # the MBAP length field is unreliable on GoodWe devices and ignored by the library: byte count only / 0
+                    ln = len(payload) if transport == 'tcp-len=bytecount' else 0
+                    raw = raw[:4] + struct.pack('>H', ln) + raw[6:]
             else:
                 cmd = gp.ModbusRtuReadCommand(0xF7, self.start, n)
                 raw = wire.rtu_read_resp(0xF7, payload)
